@@ -32,7 +32,7 @@ HARNESSES = [
       assumptions=['statsmodels LOWESS replaced by a stub returning arbitrary finite values (fluffiness is not part of C03)'],
       doc='real metarize(which): n_hits / total / perc / okta with both buffers / monotonicity across sets / code prefix'),
     H('H-amount-fp', h_amount_concrete, quick=[(3, 1, 'layers'), (4, 1, 'layers'), (3, 2, 'layers')],
-      thorough=[(3, 1, 'layers'), (4, 1, 'layers'), (3, 2, 'layers'), (5, 1, 'layers'), (4, 2, 'layers')],
+      thorough=[(3, 1, 'layers'), (4, 1, 'layers'), (3, 2, 'layers')],
       float_model='R', cover=['okta 8 by the buffer', 'okta 0 by the buffer'],
       assumptions=['statsmodels LOWESS replaced by a stub returning arbitrary finite values (fluffiness is not part of C03)'],
       doc='same clauses with the two buffers concrete (0..1 hits, 0..2 holes, chosen by forks): counts and thresholds are concrete on '
